@@ -153,6 +153,11 @@ func getFieldDecoder(pInfo parentInfos, field reflect.StructField, index int, by
 	if len(byTag) != 0 {
 		fieldTagInfos = getFieldTagInfoByTag(field, byTag)
 	}
+	if n := len(pInfo.Types); n > 0 && pInfo.Types[n-1].Kind() == reflect.Struct && hasCaseTwin(pInfo.Types[n-1], field) {
+		for i := range fieldTagInfos {
+			fieldTagInfos[i].JSONExact = true
+		}
+	}
 
 	// customized type decoder has the highest priority
 	if customizedFunc, exist := config.TypeUnmarshalFuncs[field.Type]; exist {
